@@ -5,6 +5,7 @@ mod num;
 mod proj;
 mod rt;
 mod drv;
+mod drv2;
 mod tree;
 mod consts;
 mod pure;
